@@ -49,9 +49,9 @@ PredOuts(r) ==
     THEN (IF op.name \in Folds THEN <<>>
           ELSE <<IF op.name = "iter_clone" /\ DOMAIN op.cmap = SeqRange(op.srcs[1])
                  THEN [i \in DOMAIN op.srcs[1] |-> op.cmap[op.srcs[1][i]]] ELSE op.out>>)
-    ELSE IF IsCollectOp(op.name) THEN <<op.got>>
+    ELSE IF IsCollectOp(op.name) \/ IsSerdeOp(op.name) THEN <<op.got>>
     ELSE LET e == Sem(op.name, op.srcs, op.arg, op.elems) IN [i \in DOMAIN e.outs |-> e.outs[i].items]
-PredVals == IF IsCbOp(op.name) \/ IsCollectOp(op.name) THEN <<>>
+PredVals == IF IsCbOp(op.name) \/ IsCollectOp(op.name) \/ IsSerdeOp(op.name) THEN <<>>
             ELSE Sem(op.name, op.srcs, op.arg, op.elems).vals
 ZObs(obs) == [i \in DOMAIN obs |->
                 IF obs[i].h \in DOMAIN pool THEN [obs[i] EXCEPT !.items = ZItems(@, pool[obs[i].h].items)] ELSE obs[i]]
@@ -77,7 +77,7 @@ ZId(id) == IF Anonymous THEN NewId ELSE id
 DropCandidates(id) ==
     IF ~Anonymous THEN {id}
     ELSE {SetMin(OwedIn(s)) : s \in {owed[e] : e \in DOMAIN owed}}
-         \cup (IF ~Idle /\ IsCollectOp(op.name) /\ SeqRange(op.got) \ op.gdropped # {}
+         \cup (IF ~Idle /\ (IsCollectOp(op.name) \/ IsSerdeOp(op.name)) /\ SeqRange(op.got) \ op.gdropped # {}
                THEN {SetMin(SeqRange(op.got) \ op.gdropped)} ELSE {})
 
 TMk == /\ Ev("mk")
